@@ -70,6 +70,7 @@ PROBES = [
     ('probe:octal-escape-in-single-quoted-string', "P('\\101');"),
     ('probe:big-U-escape-in-single-quoted-string', "P('\\U0001F600');"),
     ('probe:bell-backspace-formfeed-escapes', "P('\\a\\b\\f\\v');"),
+    ('probe:line-break-in-single-quoted-string', "P('a\nb');"),
 ]
 
 
@@ -234,6 +235,9 @@ def _run(rep, tier, replay, ok, info, tmp):
       key = m['key'] or 'diff:%s:%s' % (kind, common.short_hash(c['text']))
       if not m['key']:
         key = classify(c['text']) or key
+        if key.startswith('diff:%s:' % kind) and 'SyntaxError' in why and "'" in c['text'] and rr['CPP']['status'] == 'ok':
+          # parse.py hands single-quoted literals to Python's own literal reader
+          key = 'diff:python-literal-reader-crash'
       bad.setdefault(kind, []).append((len(c['text']), key, c, m, why))
   for kind, lst in sorted(bad.items()):
     lst.sort(key=lambda x: x[0])
